@@ -14,8 +14,10 @@ AllDevs == {"C20.failed_enter_leaves_patched", "C20.unloaded_target_keeps_mock"}
 
 \* alias: the connector's connect bound under another name in the target module (replaced like any other binding);
 \* notsnow_named: a foreign function that merely is called connect (refused like any non-snowflake function)
-OkKinds == {"std", "fromimport", "unloaded", "alias"}
-BadKinds == {"nomodule", "noattr", "notsnow", "notsnow_named"}
+\* unloaded_indirect: a module not imported yet that takes connect from an application module imported BEFORE patching (so what it
+\* binds is the original); unloaded_noattr: a missing attribute of a module not imported yet (refused like any missing attribute)
+OkKinds == {"std", "fromimport", "unloaded", "alias", "unloaded_indirect"}
+BadKinds == {"nomodule", "noattr", "notsnow", "notsnow_named", "unloaded_noattr"}
 InitSt == [in |-> FALSE, kind |-> "std", conns |-> 0, poisoned |-> FALSE, stale |-> FALSE]
 
 \* ---- observations ----
@@ -58,7 +60,7 @@ Steps(st, op, D) ==
 CONSTANTS MaxConns, MaxOpts, MaxRest
 OptForms == {"-d DIR", "--db_path DIR", "--db_path=DIR", "-dDIR"}
 TargetForms == {"SCRIPT", "-m MOD", "--module MOD", "--module=MOD", "-mMOD"}
-RestToks == {"val", "-x", "--", "-m", "-d", "--db_path=zzz", "other.py"}
+RestToks == {"val", "-x", "--", "-m", "-d", "--db_path=zzz", "other.py", ""}        \* "": an empty-string argument is an argument
 Ops(st) ==
   (IF ~st.in THEN [k : {"enter"}, kind : OkKinds \cup BadKinds]
    ELSE [k : {"enter"}, kind : {"std", "fromimport", "notsnow_named"}] \cup [k : {"exit"}, mode : {"ok", "raise"}]
